@@ -1,6 +1,7 @@
 import FeatherModel.Base.Driver
 import FeatherModel.Model.Maven
 import FeatherModel.Spec.MavenLevels
+import FeatherModel.Spec.MavenPom
 
 open Driver Sexp Maven
 
@@ -120,13 +121,9 @@ def numberForest (f : List (Tree Nat)) : List (Tree (Nat × Nat)) :=
       let x := numberTree c acc.2
       (acc.1 ++ [x.1], x.2)) ([], 0)).1
 
-/-- first-seen predicate, stated with a "seen" list (independent of the model's `set.remove` rendering) -/
-def firstSeen {α ι : Type} [DecidableEq ι] (idOf : α → ι) (seen : List ι) (a : α) : Bool × List ι :=
-  (!seen.contains (idOf a), idOf a :: seen)
-
 /-- nearest-wins reference answer: kept nodes of the level trace, in level order -/
 def nearestRef {α ι : Type} [DecidableEq ι] (idOf : α → ι) (forest : List (Tree α)) : List α :=
-  ((levels (firstSeen idOf) [] forest).flatten.filter (·.2)).map (·.1)
+  keptOf (considered (firstSeen idOf) [] forest)
 
 def nodupB {ι : Type} [DecidableEq ι] : List ι → Bool
   | [] => true
@@ -141,11 +138,59 @@ def coordDomain (c : Coord) : Bool :=
      | some k => noColon k
      | none => true)
 
-def foundDomain (c : Coord) : Bool :=
-  coordDomain c && noAt c.group && noAt c.artifact && noAt c.version && noAt c.type_ &&
-    (match c.classifier with
-     | some k => noAt k
-     | none => true)
+def foundDomain (c : Coord) : Bool := coordDomain c && (splitOnceAt c.print).isNone
+
+/-! ## Executable reading of the specification rules (`Spec/MavenPom.lean`): plain recursion, no stack, no queue -/
+
+def resToOption {α : Type} : Res α → Option α
+  | .ok a => some a
+  | _ => none
+
+/-- `Managed`: own entries, imports replaced in place -/
+def managedRef (eff : Coord → Option PomDone) : List (RawDep (Option Scope)) → Option (List DepDone)
+  | [] => some []
+  | x :: rest => do
+    let v ← x.version
+    let r ← managedRef eff rest
+    if x.scope == some none then
+      let bom ← eff (depCoord x.group x.artifact v x.type_ x.classifier)
+      pure (bom.depMgmt ++ r)
+    else pure (managedEntry x v :: r)
+
+/-- `EffRule`, recursing into the parent and the imported BOMs -/
+def effRef (U : Universe) (rs : List Resolver) : Nat → Coord → Option (Resolver × PomDone)
+  | 0, _ => none
+  | fuel + 1, c => do
+    let (r, pom) ← resToOption (tryGetPom U rs c)
+    let par ← match pom.parentCoord with
+      | none => some none
+      | some pc => (effRef U rs fuel pc).map (fun x => some x.2)
+    let coord ← inheritCoord par pom
+    let own ← managedRef (fun c => (effRef U rs fuel c).map (·.2)) pom.depMgmt
+    let deps ← fillDeps (own ++ parDM par) pom.deps
+    pure (r, { coord := coord, depMgmt := own ++ parDM par, deps := deps ++ parDeps par })
+
+/-- `TreeRule` -/
+def treeRef (U : Universe) (rs : List Resolver) : Nat → Coord → Scope → Option (Tree Found)
+  | 0, _, _ => none
+  | fuel + 1, c, s => do
+    let (r, e) ← effRef U rs fuel c
+    let cs ← (transitive s e.deps).mapM (fun p => treeRef U rs fuel p.1 p.2)
+    pure (.node { resolver := r, coord := c, scope := s } cs)
+
+/-- right-hand side of `resolve_spec` -/
+def resolveRef (U : Universe) (rs : List Resolver) (fuel : Nat) (roots : List (Coord × Scope)) : Option (List Found) := do
+  let forest ← roots.mapM (fun p => treeRef U rs fuel p.1 p.2)
+  pure (keptOf (considered (firstSeen (fun f : Found => f.coord.collisionId)) [] forest))
+
+/-- `Pruned`, decided -/
+partial def prunedB : List (Tree Nat) → List (Tree Nat) → Bool
+  | _, [] => true
+  | [], _ :: _ => false
+  | .node d cs :: ts, .node e ds :: us =>
+    if d == e && prunedB cs ds && prunedB ts us then true else prunedB ts (.node e ds :: us)
+
+def toSpecScope : Scope → Spec.MavenScope.S := Scope.toSpec
 
 def resAns {α : Type} (r : Res α) (f : α → Sexp) : Ans :=
   match r with
@@ -169,6 +214,28 @@ def handle (op : String) (args : List Sexp) : Option Ans :=
       | .ok l => passFail (nodupB (l.map (·.coord.collisionId))) "duplicate-id"
       | .err => .ok (tag "out-of-domain")
       | .fuel => .skip "fuel")
+  | "oracle-resolve-spec", [u, rs, roots] => do
+    let u ← universeFrom u; let rs ← toListOf? resolverFrom rs; let roots ← toListOf? rootFrom roots
+    pure (match resolve u rs (fuelFor u) roots with
+      | .ok l =>
+        match resolveRef u rs (fuelFor u) roots with
+        | some l' => passFail (l == l') "differs-from-spec"
+        | none => .ok (list [tag "fail", tag "spec-undefined"])
+      | .err => .ok (tag "out-of-domain")
+      | .fuel => .skip "fuel")
+  | "oracle-mediation", [f] => do
+    let f ← forestFrom f
+    let out := cleanUpBy (fun (x : Nat) => x) f
+    let flat := bfs out
+    pure (if !prunedB f out then .ok (list [tag "fail", tag "not-a-pruning"])
+      else if !nodupB flat then .ok (list [tag "fail", tag "duplicate-id"])
+      else passFail (flat == nearestRef (fun (x : Nat) => x) f) "not-nearest")
+  | "oracle-levelorder", [f] => do
+    let f ← forestFrom f
+    pure (passFail (bfs f == levelOrder f) "not-level-order")
+  | "oracle-scope-table", [a, b] => do
+    let a ← scopeFrom a; let b ← scopeFrom b
+    pure (passFail ((theScopeTable a b).map Scope.toSpec == Spec.MavenScope.table a.toSpec b.toSpec) "not-mavens-table")
   | "retain-first", [f] => do
     let f ← forestFrom f
     pure (.ok (forestTo (cleanUpBy (fun x => x) f)))
